@@ -4,6 +4,7 @@ import (
 	"bytes"
 	"crypto"
 	"crypto/sha256"
+	"debug/pe"
 	"fmt"
 	"hash/crc32"
 	"io"
@@ -33,11 +34,11 @@ func (r eofAtEnd) ReadAt(p []byte, off int64) (int, error) {
 	return n, nil
 }
 
-func goDigest(img []byte, h crypto.Hash) (digest []byte, class string) {
-	var p *authenticode.PECOFFBinary
-	var err error
+// c01Reader picks the io.ReaderAt an image is parsed through; the reader kind is a function of the input:
+// replays are exact
+func c01Reader(img []byte) io.ReaderAt {
 	var rd io.ReaderAt = bytes.NewReader(img)
-	switch k := crc32.ChecksumIEEE(img); k % 5 { // the reader kind is a function of the input: replays are exact
+	switch k := crc32.ChecksumIEEE(img); k % 5 {
 	case 1:
 		rd = eofAtEnd{img}
 	case 2:
@@ -57,11 +58,25 @@ func goDigest(img []byte, h crypto.Hash) (digest []byte, class string) {
 		io.CopyN(io.Discard, sr, int64(k>>8)%9)
 		rd = sr
 	}
+	return rd
+}
+
+func goParse(img []byte) (p *authenticode.PECOFFBinary, class string) {
+	var err error
+	rd := c01Reader(img)
 	if pan, _ := safely(func() { p, err = authenticode.Parse(rd) }); pan {
 		return nil, "panic"
 	}
 	if err != nil {
 		return nil, "err"
+	}
+	return p, "ok"
+}
+
+func goDigest(img []byte, h crypto.Hash) (digest []byte, class string) {
+	p, class := goParse(img)
+	if class != "ok" {
+		return nil, class
 	}
 	if pan, _ := safely(func() { digest = p.Hash(h) }); pan {
 		return nil, "panic"
@@ -70,6 +85,53 @@ func goDigest(img []byte, h crypto.Hash) (digest []byte, class string) {
 		return nil, "nodigest"
 	}
 	return digest, "ok"
+}
+
+// c01Session asks ONE parsed image for its digest several times, as a caller does that looks the image up under
+// more than one algorithm (SHA-1 and SHA-256 deny lists, a SHA-384 measurement): the digest is a function of the
+// image and of the algorithm of THIS call only. The sequence runs through all four algorithms in an order that is
+// a function of the image and then repeats the first one. A digest that was handed out belongs to the caller:
+// every other one is overwritten before the next call (a later answer must not depend on it), the others are
+// held and must not change while later digests are computed.
+func c01Session(cs Case, img, pre []byte, fail func(what, goObs, spec, matcher string)) {
+	p, class := goParse(img)
+	if class != "ok" {
+		return // reported by the single-call oracle
+	}
+	algs := []crypto.Hash{crypto.SHA256, crypto.SHA1, crypto.SHA384, crypto.SHA512}
+	k := crc32.ChecksumIEEE(img) >> 3
+	for i := len(algs) - 1; i > 0; i-- { // a permutation chosen by the image
+		j := int(k % uint32(i+1))
+		k /= uint32(i + 1)
+		algs[i], algs[j] = algs[j], algs[i]
+	}
+	algs = append(algs, algs[0], algs[1])
+	var held, snaps [][]byte
+	for i, h := range algs {
+		var d []byte
+		if pan, _ := safely(func() { d = p.Hash(h) }); pan {
+			fail(fmt.Sprintf("call %d on one parsed image: Hash(%v) panicked", i+1, h), "panic", "", "")
+			return
+		}
+		hh := h.New()
+		hh.Write(pre)
+		if want := hh.Sum(nil); !bytes.Equal(d, want) {
+			fail(fmt.Sprintf("call %d on one parsed image (algorithms so far %v): the %v digest differs from that of the specification's hash input", i+1, algs[:i+1], h), hx(d), hx(want), "")
+			return
+		}
+		for j := range held {
+			if !bytes.Equal(held[j], snaps[j]) {
+				fail(fmt.Sprintf("the digest returned by call %d on one parsed image changed during call %d (the result aliases memory that is reused)", j+1, i+1), hx(held[j]), hx(snaps[j]), "")
+				return
+			}
+		}
+		if i%2 == 0 {
+			for x := range d {
+				d[x] ^= 0xA5
+			}
+		}
+		held, snaps = append(held, d), append(snaps, append([]byte{}, d...))
+	}
 }
 
 func fieldAfter(s, key string) string {
@@ -119,16 +181,8 @@ func c01Image(c *Ctx, cs Case, img []byte, cls string, positions []int) {
 		}
 		fail("digest differs from the Authenticode PE hash of the specification applied to the padded image", hx(got), hx(want[:]), m)
 	}
-	// the hash is generic in the algorithm: spot-check SHA-1 / SHA-512 against the same pre-image
-	if c.Rng.Intn(8) == 0 {
-		for _, h := range []crypto.Hash{crypto.SHA1, crypto.SHA512} {
-			hh := h.New()
-			hh.Write(pre)
-			if g, _ := goDigest(img, h); !bytes.Equal(g, hh.Sum(nil)) {
-				fail(fmt.Sprintf("%v digest differs from the specification's pre-image", h), hx(g), hx(hh.Sum(nil)), "")
-			}
-		}
-	}
+	// the hash is generic in the algorithm, and one parsed image answers any number of calls
+	c01Session(cs, img, pre, fail)
 	// correspondence: the Impl model's pre-image
 	c.Trace()
 	mh := c.Drv.Ask("pe.hash", hx(img))
@@ -162,6 +216,7 @@ func c01Image(c *Ctx, cs Case, img []byte, cls string, positions []int) {
 		if len(f) != 3 || p >= len(img) {
 			continue
 		}
+		f0 := f[0]
 		c.Count(fmt.Sprintf("%s@%d^%d", cs.Key(), p, masks[i]), true, "flip/"+f[0]+"/wf="+f[1])
 		if f[1] != "true" {
 			continue // the changed file is no longer a well-formed image: outside the property's domain
@@ -171,7 +226,13 @@ func c01Image(c *Ctx, cs Case, img []byte, cls string, positions []int) {
 		g2, gc2 := goDigest(mut, crypto.SHA256)
 		if gc2 == "err" {
 			// debug/pe validates more than the Spec's well-formedness (machine whitelist, symbol table and
-			// relocation pointers, section names): a changed file it rejects is outside the domain
+			// relocation pointers, section names): a changed file it rejects is outside the domain. That is asked
+			// of debug/pe itself: an image that is well-formed and that it accepts has a digest
+			if f, perr := pe.NewFile(bytes.NewReader(mut)); perr == nil {
+				f.Close()
+				fail(fmt.Sprintf("Parse rejects a well-formed image that debug/pe accepts (byte %d, class %s, changed)", p, f0), "err", "a digest", "")
+				continue
+			}
 			c.Count(fmt.Sprintf("%s@%d rejected", cs.Key(), p), false, "flip/rejected-by-debug-pe")
 			continue
 		}
@@ -190,11 +251,7 @@ func c01Image(c *Ctx, cs Case, img []byte, cls string, positions []int) {
 				fail(fmt.Sprintf("changing covered byte %d does not change the digest", p), "unchanged", "changed", "")
 			}
 		case "excluded":
-			inDirEntry := false
-			if d := cs.I("_dd"); int64(p) >= d && int64(p) < d+8 {
-				inDirEntry = true
-			}
-			if changed && !inDirEntry {
+			if changed {
 				fail(fmt.Sprintf("changing excluded byte %d changes the digest", p), "changed", "unchanged", "")
 			}
 		}
@@ -299,7 +356,7 @@ func alignSpec(s peSpec, j, a int) peSpec {
 
 func init() {
 	register("C01", &PropDef{
-		Rule:   "generated well-formed images over {PE32, PE32+} x e_lfanew {0x40, 0x48, 0x80, random} x 5..16 data directories x 0..8 (thorough: ..96) sections x size classes {0,1,7,8,9,512,random, >32 KiB and >64 KiB every 25th image so that io.Copy's 32 KiB reads cross part boundaries} x part boundaries aligned to 32 KiB / 512 B in the hashed stream (section ends at offset = 12 mod the read size) x header order (random permutation / file order) x gaps x SizeOfHeaders slack x trailing length {0,1,7,8,9,random} x certificate table {none, 1, 2 entries} x 3 machine types; the repository's binaries; per image ~25 stratified byte changes (header fields, checksum, directory entry, section table, slack, section boundaries, gaps, tail, certificate table). Half of the images (by a checksum of their bytes) are read through a conforming io.ReaderAt that reports io.EOF together with the read that reaches the end of the file. Non-trivial: image longer than 256 bytes / every flip; distinct = distinct specs and (image, position, mask).",
+		Rule:   "generated well-formed images over {PE32, PE32+} x e_lfanew {0x40, 0x48, 0x80, random} x 5..16 data directories x 0..8 (thorough: ..96) sections x size classes {0,1,7,8,9,512,random, >32 KiB and >64 KiB every 25th image so that io.Copy's 32 KiB reads cross part boundaries} x part boundaries aligned to 32 KiB / 512 B in the hashed stream (section ends at offset = 12 mod the read size) x header order (random permutation / file order) x gaps x SizeOfHeaders slack x trailing length {0,1,7,8,9,random} x certificate table {none, 1, 2 entries} x, for every third image, a left-over directory-entry address with size 0 when there is no table {1, inside the headers, inside the sections, end of the sections, inside the trailing data, file end, padded file end, beyond the file, 2^32-1} x 3 machine types; the repository's binaries; per image ~25 stratified byte changes (header fields, checksum, directory entry, section table, slack, section boundaries, gaps, tail, certificate table); a changed image that is still well-formed and that Parse rejects counts as outside the domain only when debug/pe.NewFile itself rejects it, and a changed directory-entry byte is judged like any other excluded byte. Every image is also parsed once and asked for its digest six times on that one object, running through SHA-1/256/384/512 in an order chosen by the image and then repeating the first two; every answer is compared with that algorithm over the specification's hash input, every other returned slice is overwritten by the caller before the next call, and the remaining ones are held and must not change. Half of the images (by a checksum of their bytes) are read through a conforming io.ReaderAt that reports io.EOF together with the read that reaches the end of the file. Non-trivial: image longer than 256 bytes / every flip; distinct = distinct specs and (image, position, mask).",
 		Assume: []string{"debug/pe.NewFile accepts the generated headers (machine type from its whitelist, no symbol table, no relocations, section names not starting with '/')", "SHA-256 does not collide on the pre-images compared"},
 		Eval:   c01Eval, Gen: c01Gen,
 	})
